@@ -238,4 +238,13 @@ m("c17-get-conf-returns-module-dict", ["C17"], D, "    return copy.deepcopy(_DEF
 m("c17-diag-config-not-copied", ["C17"], D, "        bd_conf = copy.deepcopy(config)", "        bd_conf = config\n        bd_conf[\"graph\"].setdefault(\"label\", \"\")\n        bd_conf[\"graph\"].pop(\"label\")\n        bd_conf[\"node\"][\"default\"][\"margin\"] = \"0.1\"")
 m("c17-solve-tags-default-mutated", ["C17"], Y, "            if tags != {}:\n                for key in tags.keys():\n                    res[key] = [tags[key]] * len(names)", "            tags.setdefault(\"_n\", len(names))\n            tags.pop(\"_n\")\n            if ph != \"\":\n                tags[\"phase\"] = ph\n            if tags != {}:\n                for key in tags.keys():\n                    res[key] = [tags[key]] * len(names)")
 m("c17-params-report-normalises-in-place", ["C17"], C, "                else:\n                    ret[param] = self._params[param]\n        return ret", "                else:\n                    ret[param] = self._params[param]\n                    if param == \"rt\":\n                        self._params[param] = round(self._params[param], 1)\n        return ret")
-m("c17-hdiag-solve-leaves-phase-cache", ["C17"], Y, "    def _set_phase_lkup(self):\n        \"\"\"Make lookup from node # to load phases\"\"\"\n        self._phase_lkup = {}", "    def _set_phase_lkup(self):\n        \"\"\"Make lookup from node # to load phases\"\"\"\n        if getattr(self, \"_phase_lkup\", None):\n            return\n        self._phase_lkup = {}")
+m("c16-phase-lookup-cached-across-edits", ["C16"], Y, "    def _set_phase_lkup(self):\n        \"\"\"Make lookup from node # to load phases\"\"\"\n        self._phase_lkup = {}", "    def _set_phase_lkup(self):\n        \"\"\"Make lookup from node # to load phases\"\"\"\n        if len(getattr(self, \"_phase_lkup\", {})) == len(self._g.attrs[\"phase_conf\"]):\n            return\n        self._phase_lkup = {}")
+
+# ---- C18 -------------------------------------------------------------------------------------
+m("c18-phase-index-not-advanced", ["C18"], Y, "                    phidx = (phidx + 1) % len(phase_list)", "                    phidx = (phidx + 1) % max(1, len(phase_list) - 1)")
+m("c18-duration-of-next-phase", ["C18"], Y, "                        deltat = self._g.attrs[\"phases\"][phase_list[phidx]]", "                        deltat = self._g.attrs[\"phases\"][phase_list[(phidx + 1) % len(phase_list)]]")
+m("c18-current-of-first-source", ["C18"], Y, "                    bstate = dfunc(deltat, i[pidx])", "                    bstate = dfunc(deltat, i[self._get_sources()[0]])")
+m("c18-stale-voltage-for-solve", ["C18"], Y, "                    self._g[pidx]._params[\"vo\"] = bstate[1]\n", "                    self._g[pidx]._params[\"vo\"] = volt[0]\n")
+m("c18-violating-state-logged", ["C18"], Y, "                    if bstate[0] > 0.0 and bstate[1] > cutoff:\n                        t += [t[-1] + deltat]", "                    if bstate[0] >= 0.0 and bstate[1] > cutoff:\n                        t += [t[-1] + deltat]")
+m("c18-timestep-factor", ["C18"], Y, "                        deltat = (cap[0] / i[pidx]) * 3.6", "                        deltat = (cap[-1] / i[pidx]) * 3.6")
+m("c18-nonsource-battery-accepted", ["C18"], Y, "        if not isinstance(self._g[pidx], Source):\n            raise ValueError(\"Battery must be a source!\")", "        if isinstance(self._g[pidx], (PLoad, ILoad, RLoad)):\n            raise ValueError(\"Battery must be a source!\")")
